@@ -1210,6 +1210,7 @@ class ChoicePayloadDecoder(ConstructedPayloadDecoderBase):
 
                 if isinstance(component, SubstrateUnderrunError):
                     yield component
+                    continue
 
                 if component is eoo.endOfOctets:
                     break
